@@ -139,3 +139,48 @@ Theorem C01_compile_correct_shrink_discharged_partial :
      bytes_of_string (render_prints (fst o)) = flat_map runtime_bytes (fst o)).
 Proof. exact compile_correct_fragment2. Qed.
 Print Assumptions C01_compile_correct_shrink_discharged_partial.
+
+(* ================= round 3: EVERY middle link discharged =================
+   The universal hypotheses H_fun2core, H_focus, H_shrink of C01_compile_correct_partial turned out to be FALSE as
+   stated (C02_fun2core_guarded_statement_refuted: call of main; C03_focus_preserves_statement_refuted: ill-typed
+   Core; C04: identifiers with equal ids spelled differently), so that theorem is kept only as the record of the
+   original plan.  The theorem below has NO stage hypothesis other than the x86-64 code generation link: the
+   Fun -> Core, Core -> focused Core, focused Core -> AxCut and AxCut -> linear AxCut links are the proved theorems
+   C02_fun2core_correct_fragment2, C03_uniquify_focus_preserves_static, C04_shrink_correct_fragment2 and
+   C05 linearize_preserves, each under boolean guards on the programs the statement names.  The guards are
+   evaluated on every real stage output by the run-time checks (tags proved-fragment2, thm-static, proved-sem). *)
+From SCC Require Import Model.PipelineGuards Proof.ComposeAll Proof.Fun2CoreExamples.
+Theorem C01_compile_correct_middle_discharged :
+  H_x86 ->
+  forall (p : fcprog) (c : cprog) (f : fsprog) (a : prog) (cs : list xcode) (nargs : nat) (lc lc' : N)
+         (args : list Z) (n : nat) (o : obs),
+    NoDup (map fdname (fcpdefs p)) -> prog_guard p = true ->
+    compile_prog p = Fun2Core.Ok c ->
+    pre_check c = true -> focus_wf c = true -> cs_prog c = true -> static_ok c = true ->
+    focus_prog c = Backend.Ok f ->
+    frag2_prog f = true -> decls_ok f = true -> wt_fs f = true -> unique_binders f = true -> ids_bounded f = true ->
+    shrink_prog f = SOk a ->
+    prog_ok a = true ->
+    x86_compile (linearize a) lc = Backend.Ok (cs, nargs, lc') ->
+    run_fun n p args = o -> out_ok o ->
+    (exists outer inner, fst (run_x86 outer inner cs args) = o) /\
+    (Forall (fun pz => in_i64 (snd pz)) (fst o) ->
+     bytes_of_string (render_prints (fst o)) = flat_map runtime_bytes (fst o)).
+Proof. exact compile_correct_middle_discharged. Qed.
+Print Assumptions C01_compile_correct_middle_discharged.
+
+(* non-vacuity: five concrete programs (mutual recursion; shared continuations; lists with case in tail and non-tail
+   position; labels, goto out of an operand, a label passed as an argument; a corecursive stream with by-name
+   bindings) satisfy every guard of the theorem and are compiled by the model of the x86-64 back end *)
+Theorem C01_middle_discharged_nonvacuous :
+  forallb (fun p => forallb (fun b => b) (pipeline_guards p)) [ex_calls; ex_shared; ex_data; ex_labels; ex_codata] = true.
+Proof. exact pipeline_guards_examples. Qed.
+Print Assumptions C01_middle_discharged_nonvacuous.
+
+(* and on three of them the CONCLUSION is computed outright, without any hypothesis: the source semantics and the
+   emitted x86-64 code run on the ISA model give the same prints and exit value *)
+Theorem C01_end_to_end_examples :
+  end_to_end_agree ex_data [6] 2000 2000 2000 = true /\ end_to_end_agree ex_labels [5] 2000 2000 2000 = true
+  /\ end_to_end_agree ex_codata [4] 4000 2000 2000 = true.
+Proof. exact end_to_end_example. Qed.
+Print Assumptions C01_end_to_end_examples.
